@@ -1,6 +1,7 @@
 import Wx.Cli.Action
 import Wx.Queue.Props
 import Wx.Job.C04Sim
+import Wx.Cli.ComposeThm
 /-! # C05 — On-busy policy: do-nothing, queue, restart and signal behave as documented
 
 > With the CLI's action logic a change while the command is idle starts it; a change while it runs does nothing
@@ -54,5 +55,25 @@ theorem old_protocol_and_reordering_lose_changes :
     (∃ es, Qm.quiescent (Qm.run { v := .today } es) = true ∧ Qm.fresh (Qm.run { v := .today } es) = false) ∧
     (∃ es, Qm.quiescent (Qm.run { v := .reorder } es) = true ∧ Qm.fresh (Qm.run { v := .reorder } es) = false) :=
   ⟨⟨_, Qm.f10_today⟩, ⟨_, Qm.reorder_insufficient⟩⟩
+
+/-! ### the composed model: the action logic driving the job task, over every script of CLI events -/
+
+/-- **runs never overlap** — for every configuration, child behaviour, `--delay-run`, and every script of events (changes,
+    signals, mixed actions, any timing, every race resolution) — and what the job does is a run of the documented machine -/
+theorem composed_runs_never_overlap (cfg : Cfg) (behs : List Beh) (delay : Option Nat) (evs : List Ev) :
+    ∀ c ∈ runEvs (initC cfg behs delay) evs, Jm.Inv c.x.st ∧ SpecRun (initC cfg behs delay).x.st.abs c.x.st.abs c.x.st.fx :=
+  cli_runs_never_overlap cfg behs delay evs
+
+/-- **restart stops gracefully**: without an interrupt / terminate signal, every kill comes at least the stop timeout
+    after a signal to the same process -/
+theorem composed_never_kills_early (cfg : Cfg) (behs : List Beh) (delay : Option Nat) (evs : List Ev) (hq : ∀ e ∈ evs, NoQuitEv e) :
+    ∀ c ∈ runEvs (initC cfg behs delay) evs, ∀ t ch, (t, Obs.kill ch) ∈ c.x.st.log →
+      ∃ t0 sig, (t0, Obs.signal ch sig) ∈ c.x.st.log ∧ t0 + cfg.stopTimeout ≤ t :=
+  cli_never_kills_early cfg behs delay evs hq
+
+/-- **do-nothing, queue and signal modes never kill** -/
+theorem composed_other_modes_never_kill (cfg : Cfg) (hm : cfg.mode ≠ .restart) (behs : List Beh) (delay : Option Nat) (evs : List Ev)
+    (hq : ∀ e ∈ evs, NoQuitEv e) : ∀ c ∈ runEvs (initC cfg behs delay) evs, ∀ t ch, (t, Obs.kill ch) ∉ c.x.st.log :=
+  cli_other_modes_never_kill cfg hm behs delay evs hq
 
 end Props.C05
